@@ -107,6 +107,11 @@ func (req *Request) parse(con *Connection) {
 	p := buf
 	key, value,tmp := "", "",""
 	for p != "" {
+		//空行表示头部结束: 消耗掉空行, 之后的字节就是 body
+		if strings.HasPrefix(p, "\r\n") {
+			p = p[2:]
+			break
+		}
 		if key, tmp = match_until(p, ": ");key != "" {
 			p = tmp
 		}
